@@ -78,8 +78,11 @@ type Case struct {
 	KindFrame int    `json:"pipe_frame,omitempty"`
 	// S9: the plaintext / ciphertext source answers (0, nil) once before
 	// every k-th data read
-	EmptyP int `json:"empty_read_every_plaintext,omitempty"`
-	EmptyC int `json:"empty_read_every_ciphertext,omitempty"`
+	// S10: NameIdx > 0 uses keyNameAlphabet[NameIdx-1] as KeyName (KeyOpt 0) or
+	// DecryptionKeyName (KeyOpt 1); an index, because not every name is valid UTF-8
+	NameIdx int `json:"key_name_index,omitempty"`
+	EmptyP  int `json:"empty_read_every_plaintext,omitempty"`
+	EmptyC  int `json:"empty_read_every_ciphertext,omitempty"`
 }
 
 // MaxHeader is the limit stated in schemes/enc/v1 (fileKey.SignHeader: "The
@@ -88,6 +91,37 @@ const MaxHeader = 64 << 10
 
 var wrapModeNames = []string{"pure", "scrubs-argument", "overwrites-argument", "identity-returning-argument", "appends-to-argument"}
 var unwrapModeNames = []string{"pure", "caller-zeroes-returned-slice", "caller-overwrites-returned-slice"}
+
+// keyNameAlphabet: key names made of, and containing, the characters on which
+// JSON string escaping and other quoting conventions differ.
+var keyNameAlphabet = func() []string {
+	specials := []string{
+		"\x01", "\x1f", "\v", "\b", "\f", "\n", "\r", "\t", "\x7f", "\u0085", "\u00a0", "\u00e9", "\u2028", "\u2029", "\ufeff", "\ufffd",
+		"\U0001F600", "\U000E0001", "\U0010FFFF", "\xff", "\xc3", "\xed\xa0\x80", "\xf4\x90\x80\x80",
+		`"`, `\`, "<", ">", "&", "'", "/", " ", "%", "{", "}", ":", ",", "\\u0041", "\\n",
+	}
+	var out []string
+	all := "k"
+	for _, sp := range specials {
+		out = append(out, sp, "key"+sp+"name/1")
+		all += sp
+	}
+	return append(out, all, "x")
+}()
+
+// asJSONCarries is what a JSON string member carries of a Go string: encoding/json
+// replaces bytes that are not valid UTF-8 by U+FFFD; everything else survives.
+func asJSONCarries(s string) string {
+	b, err := json.Marshal(s)
+	if err != nil {
+		panic(err)
+	}
+	var out string
+	if err := json.Unmarshal(b, &out); err != nil {
+		panic(err)
+	}
+	return out
+}
 
 func longName(n int) string {
 	b := make([]byte, n)
@@ -184,6 +218,16 @@ func runCase(c *Case, record bool) (masks [][]encenv.Mask, fails []failure) {
 	if c.NameLen > 0 {
 		encName = longName(c.NameLen)
 		ko.manifest, ko.vault = encName, encName
+	}
+	if c.NameIdx > 0 {
+		raw := keyNameAlphabet[c.NameIdx-1]
+		carried := asJSONCarries(raw)
+		if c.KeyOpt == 0 {
+			encName = raw
+		} else {
+			ko.decName = raw
+		}
+		ko.manifest, ko.vault = carried, carried
 	}
 	natLen := kw.WFKLen
 	if c.WrapMode == 3 {
@@ -464,7 +508,7 @@ func run(r *enumx.Run, replay *enumx.ReplayCase) {
 		return
 	}
 
-	r.Rule("each evaluation is one complete Encrypt->Decrypt pipeline on the real code with all three oracles (round trip; README layout; reference implementation reads kit's document / kit reads the reference's document written with the manifest members in the opposite order). S1: full product cipher{unset,AES-GCM,CHACHA20-POLY1305} x 8 key-wrap configurations (5 algorithms, 2 aliases, RSA-4096) x 5 key-name options x 14 plaintext lengths x 2 directions. S2: uniform chunking policies (source chunk {fill,1,7,4096,65535,65536} x consumer buffer {big,1,7,4096}) for each pipeline half. S2h: the ciphertext source delivers uniform frames of headerLength+k bytes, k in -2..3, and 2*headerLength+1. S3: every set of <= bound deviations {0 bytes,1 byte,n-1 bytes,stop at segment boundary,data+EOF, Read ends at header end+k for k in -1..3 (ciphertext source) | 1-byte buffer,7-byte buffer} placed on the calls of the four environments, generated once each in (environment, call index) order from the applicability recorded in the parent run. S5: wrap functions that scrub / overwrite / return / append to the key buffer they were given and callers that zero or overwrite the slice their unwrap function returned right after Decrypt returns (immediately or after one yield; sequential under GOMAXPROCS(1)). Every pipeline also checks that Decrypt left the slice its unwrap function returned untouched (when it returned, after the stream was read, after Close). S7: an unwrap function that hands out the same slice for the same wrapped key (caching vault client): the document is decrypted 2 and 3 times in a row, and two reference documents sharing a file key alternately, streams read one after the other or all opened first. S8: reader kinds for the plaintext source of Encrypt and the ciphertext source of Decrypt: Read only; bytes.Reader; a regular *os.File; a reader whose Seek always fails; the read end of an os.Pipe fed by a goroutine; a reader with consistent Seek/ReadAt/WriteTo/ReadByte; one whose optional methods all fail. S9: sources that answer (0,nil) once before every k-th data read (k in {1,2,7}, small chunks, up to 1024 empty reads per stream, never two in a row). S6: header lengths B-1,B,B+1 for B in {512..32768}, 65535, 65536 and 65537 (Encrypt must refuse or still round-trip) reached by a long wrapped-key envelope or a long key name. S4 (thorough): one streamed 65538-segment document in both directions, so that segment counters beyond 65535 occur. Every evaluation is a distinct case by construction; none is trivial (each runs the full pipeline).")
+	r.Rule("each evaluation is one complete Encrypt->Decrypt pipeline on the real code with all three oracles (round trip; README layout; reference implementation reads kit's document / kit reads the reference's document written with the manifest members in the opposite order). S1: full product cipher{unset,AES-GCM,CHACHA20-POLY1305} x 8 key-wrap configurations (5 algorithms, 2 aliases, RSA-4096) x 5 key-name options x 14 plaintext lengths x 2 directions. S2: uniform chunking policies (source chunk {fill,1,7,4096,65535,65536} x consumer buffer {big,1,7,4096}) for each pipeline half. S2h: the ciphertext source delivers uniform frames of headerLength+k bytes, k in -2..3, and 2*headerLength+1. S3: every set of <= bound deviations {0 bytes,1 byte,n-1 bytes,stop at segment boundary,data+EOF, Read ends at header end+k for k in -1..3 (ciphertext source) | 1-byte buffer,7-byte buffer} placed on the calls of the four environments, generated once each in (environment, call index) order from the applicability recorded in the parent run. S5: wrap functions that scrub / overwrite / return / append to the key buffer they were given and callers that zero or overwrite the slice their unwrap function returned right after Decrypt returns (immediately or after one yield; sequential under GOMAXPROCS(1)). Every pipeline also checks that Decrypt left the slice its unwrap function returned untouched (when it returned, after the stream was read, after Close). S7: an unwrap function that hands out the same slice for the same wrapped key (caching vault client): the document is decrypted 2 and 3 times in a row, and two reference documents sharing a file key alternately, streams read one after the other or all opened first. S8: reader kinds for the plaintext source of Encrypt and the ciphertext source of Decrypt: Read only; bytes.Reader; a regular *os.File; a reader whose Seek always fails; the read end of an os.Pipe fed by a goroutine; a reader with consistent Seek/ReadAt/WriteTo/ReadByte; one whose optional methods all fail. S9: sources that answer (0,nil) once before every k-th data read (k in {1,2,7}, small chunks, up to 1024 empty reads per stream, never two in a row). S10: key names made of / containing control characters (0x01, 0x1F, \\v, \\b \\f \\n \\r \\t, DEL), C1 and no-break space, U+2028/2029, BOM, U+FFFD, code points above U+FFFF (printable and not), invalid UTF-8 (lone 0xFF, truncated sequence, surrogate half, beyond U+10FFFF), and the characters with a meaning in JSON or HTML (quote, backslash, <, >, &, braces, colon, comma, literal backslash-u), as KeyName and as DecryptionKeyName; the manifest must be valid compact JSON whose k member decodes to the name as encoding/json carries it (invalid bytes become U+FFFD), and that is the name the vault is asked for. S6: header lengths B-1,B,B+1 for B in {512..32768}, 65535, 65536 and 65537 (Encrypt must refuse or still round-trip) reached by a long wrapped-key envelope or a long key name. S4 (thorough): one streamed 65538-segment document in both directions, so that segment counters beyond 65535 occur. Every evaluation is a distinct case by construction; none is trivial (each runs the full pipeline).")
 
 	// S3 is cheap (a few thousand pipelines), so both tiers take all placements
 	// of <= 2 deviations; quick restricts S2/S3 to the boundary lengths.
@@ -548,6 +592,32 @@ func run(r *enumx.Run, replay *enumx.ReplayCase) {
 	}
 	r.Sample(s7[len(s7)/2])
 	lap("S7")
+
+	// ---- S10: the key-name alphabet, as KeyName and as DecryptionKeyName
+	var s10 []*Case
+	for i := range keyNameAlphabet {
+		for ko := 0; ko <= 1; ko++ {
+			for ci := 1; ci <= 2; ci++ {
+				for _, n := range []int{0, 65537} {
+					for dir := 0; dir < 2; dir++ {
+						s10 = append(s10, &Case{Len: n, Cipher: ci, KW: chunkKW, KeyOpt: ko, Dir: dir, NameIdx: i + 1})
+					}
+				}
+			}
+		}
+	}
+	doneS10 := r.Parallel(len(s10), func(i int) {
+		_, fails := runCase(s10[i], false)
+		report(s10[i], fails)
+		r.Count(1, 1)
+	})
+	if doneS10 == len(s10) {
+		r.Space(fmt.Sprintf("S10 key-name alphabet: %d pipelines = %d names (each special character alone and embedded, all of them in one name) x {KeyName, DecryptionKeyName} x 2 ciphers x lengths {0, 65537} x 2 directions", len(s10), len(keyNameAlphabet)))
+	} else {
+		r.Incomplete(fmt.Sprintf("S10 key-name alphabet: %d of %d", doneS10, len(s10)))
+	}
+	r.Sample(s10[len(s10)/2])
+	lap("S10")
 
 	// ---- S8: reader kinds (kinds_test.go)
 	var s8 []*Case
